@@ -1,4 +1,5 @@
 import Fabio.Lemmas.C02Lines
+import Fabio.Lemmas.C02Drain
 import Fabio.Props.C02Buf
 /-!
 C02, round 4 — `bufio.Scanner` reads the raw lines of the parser model.
@@ -52,8 +53,28 @@ theorem cutLens_is_the_parser_check (ls : List Str) :
     · simp [h]
     · simp [h, ih]
 
+/-- **An accepted text is read to its end.** When the parser model accepts a text, the model of `bufio.Scanner` has taken
+every byte out of the buffer it was handed: nothing of an accepted configuration stays behind in `tableBuffer`. This is
+the statement stream `c02.buffer` evaluates on the real `route.NewTable` per case (`accepted-text-not-read-to-end`), and
+the reason the loop without `Reset` (`noReset_refines_when_drained`) goes wrong only after a REJECTED text. -/
+theorem accepted_text_is_read_to_end (pf : ParseFloat) (text : Str) (ds : List RouteDef) (h : parse pf text = .ok ds) :
+    leftAfterParse pf text = 0 :=
+  Fabio.Lemmas.C02Drain.accepted_text_is_read_to_end pf text ds h
+
+/-- the same for `route.NewTable`: whenever `loadTable` gets as far as the table code (a table, or an error of the
+table code), the buffer is empty afterwards -/
+theorem loadTable_past_parse_drains (env : Env) (pf : ParseFloat) (text : Str)
+    (h : ∀ e, loadTable env pf text ≠ .error (.parse e)) : leftAfterParse pf text = 0 := by
+  unfold loadTable at h
+  cases hp : parse pf text with
+  | error e => exact absurd (by simp [hp]) (h e)
+  | ok ds => exact accepted_text_is_read_to_end pf text ds hp
+
 /-! ## non-vacuity -/
 section examples
+
+/-- a text the parser accepts (a comment and a blank line): hypothesis of `accepted_text_is_read_to_end` satisfiable -/
+example : ∃ ds, parse (fun _ => none) "# c\n\n".toList = .ok ds := ⟨[], by rfl⟩
 
 /-- three lines and an empty one, CRLF untouched at this level; a text ending in a newline has no extra line -/
 example : cutLens 65536 ((rawLines "ab\r\ncd\n\nx".toList).map byteLen) = ([3, 2, 0, 1], false) := by decide
